@@ -159,7 +159,7 @@ def ev(x, ctx, obj=None):
         return ctx[x[1]]
     if k == "up":
         return ctx["_"][x[1]]
-    if k == "path":
+    if k == "path" or k == "lam":
         v = ctx
         for n in x[1]:
             v = v[n]
